@@ -26,6 +26,11 @@ from translate import gmpxx          # noqa: E402
 from vlib import common              # noqa: E402
 
 TU = '#include "%s/harness/domains.h"\nint fp_use() { return (int)dz::kinds().size(); }\n'
+# the out-of-line definitions the domain classes call into (compiled into libgivaro, not visible through the headers): included in the
+# translation unit so that the closure under calls reaches them (Rational arithmetic and constructors, the allocator; the Integer layer is C01's translation unit)
+OUT_OF_LINE = ("src/kernel/rational/givrataddsub.C", "src/kernel/rational/givratcompare.C", "src/kernel/rational/givratcpy.C",
+               "src/kernel/rational/givratcstor.C", "src/kernel/rational/givratmisc.C", "src/kernel/rational/givratmuldiv.C",
+               "src/kernel/memory/givaromm.C")
 
 DOMAIN_CLASSES = ("Modular", "ModularBalanced", "ModularExtended", "Montgomery", "GFqDom", "Extension", "Poly1Dom", "QField", "ZRing",
                   "Modular_implem", "FiniteFieldInterface", "FiniteRingInterface", "UnparametricZRing")
@@ -39,9 +44,11 @@ def strip(n):
 
 
 class Scan:
-    def __init__(self, prog, globals_nonconst):
+    def __init__(self, prog, globals_nonconst, mutable_fields=None, const_methods=None):
         self.prog = prog
         self.gvars = globals_nonconst
+        self.mutable_fields = mutable_fields or {}     # FieldDecl id -> name, for fields declared `mutable`
+        self.const_methods = const_methods or set()    # ids of const member functions
 
     def scan(self, f):
         r = dict(statics=set(), const_writes=set(), pointee_writes=set(), const_casts=0, calls=set(), local_statics=set())
@@ -100,8 +107,25 @@ class Scan:
                 if rd.get("id") in self.gvars or rd.get("id") in local_static_ids:
                     out.append(("static", rd.get("name")))
 
-        def walk(n):
+        def walk(n, parent=None):
             k = n.get("kind")
+            # a `mutable` data member of *this used in a const member function other than by reading its value or calling a const
+            # member function on it (`_cache.reset(…)`, `_seen = true`, passing it by non-const reference, taking its address)
+            if f.const and k == "MemberExpr" and n.get("referencedMemberDecl") in self.mutable_fields:
+                b = n["inner"][0] if n.get("inner") else {}
+                while b.get("kind") in ("ImplicitCastExpr", "ParenExpr", "CXXConstCastExpr", "CStyleCastExpr") and b.get("inner"):
+                    b = b["inner"][-1]
+                if b.get("kind") == "CXXThisExpr":
+                    pk = (parent or {}).get("kind")
+                    read_only = False
+                    if pk == "ImplicitCastExpr" and parent.get("castKind") in ("LValueToRValue",):
+                        read_only = True
+                    elif pk == "ImplicitCastExpr" and parent.get("castKind") == "NoOp" and "const" in parent.get("type", {}).get("qualType", ""):
+                        read_only = True      # bound as a const object (const member call / const reference argument)
+                    elif pk == "MemberExpr" and parent.get("referencedMemberDecl") in self.const_methods:
+                        read_only = True
+                    if not read_only:
+                        r["const_writes"].add("%s (mutable)" % self.mutable_fields[n["referencedMemberDecl"]])
             if k == "VarDecl" and n.get("storageClass") == "static":
                 qt = n.get("type", {}).get("qualType", "")
                 if not (qt.startswith("const ") and not n.get("inner")) and "constexpr" not in json.dumps(n.get("constexpr", "")):
@@ -146,7 +170,7 @@ class Scan:
                 elif t[0] == "static":
                     r["statics"].add("write:" + t[1])
             for c in n.get("inner", []):
-                walk(c)
+                walk(c, n)
         walk(f.body)
         for ini in f.inits:
             walk(ini)
@@ -163,6 +187,9 @@ def extract(log=lambda *a: None):
     src = os.path.join(work, "fp.C")
     with open(src, "w") as fh:
         fh.write(TU % common.VERIF)
+        for rel in OUT_OF_LINE:
+            if os.path.exists(os.path.join(common.REPO, rel)):
+                fh.write('#include "%s"\n' % os.path.join(common.REPO, rel))
     cmd = ["clang++-14", "-std=gnu++17", "-fsyntax-only", "-DNDEBUG", "-UDEBUG", "-w"] + common.inc_flags() + \
           ["-I", os.path.join(common.VERIF, "harness"), "-Xclang", "-ast-dump=json", "-Xclang", "-ast-dump-filter=Givaro", src]
     p = subprocess.run(cmd, stdout=subprocess.PIPE, stderr=subprocess.PIPE, text=True)
@@ -178,7 +205,29 @@ def extract(log=lambda *a: None):
             continue
         if node.get("storageClass") == "static" or cls is None:
             gvars[vid] = "%s%s" % ((cls + "::") if cls else "", node.get("name"))
-    sc = Scan(prog, gvars)
+    # fields declared `mutable`, and the ids of const member functions (declarations and definitions)
+    mutable_fields, const_methods = {}, set()
+
+    def collect(n):
+        k = n.get("kind")
+        if k == "FieldDecl" and n.get("mutable"):
+            mutable_fields[n["id"]] = n.get("name")
+        if k == "CXXMethodDecl" and re.search(r"\)\s*const(\s|$|&|noexcept)", n.get("type", {}).get("qualType", "")):
+            const_methods.add(n["id"])
+        for c in n.get("inner", []) or []:
+            if isinstance(c, dict):
+                collect(c)
+    for d in docs:
+        collect(d)
+    # the out-of-line definition of a static data member (`T C::m = …;` at namespace scope) is the same variable as its in-class declaration
+    member_names = {}
+    for vid, (node, cls) in prog.vars.items():
+        if cls is not None and node.get("storageClass") == "static":
+            member_names.setdefault(node.get("name"), set()).add("%s::%s" % (cls, node.get("name")))
+    for vid, (node, cls) in prog.vars.items():
+        if vid in gvars and cls is None and len(member_names.get(node.get("name"), ())) == 1 and node.get("previousDecl"):
+            gvars[vid] = next(iter(member_names[node.get("name")]))
+    sc = Scan(prog, gvars, mutable_fields, const_methods)
     rows = {}
     by_id = {}
     for f in prog.funcs:
